@@ -25,6 +25,27 @@ def list_fields(F, fn, item):
     return fields, (max(sizes) if sizes else 0)
 
 
+def _call_block(du, v, name_part, depth=0):
+    """block of the first call whose name contains name_part in the value expression (following single-definition locals)"""
+    if depth > 14:
+        return None
+    if v[0] in ("ref", "place"):
+        vv = du.val_place((v[1][0], ()))
+        if vv != v and vv[0] != "place":
+            return _call_block(du, vv, name_part, depth + 1)
+        return None
+    if v[0] == "call":
+        if name_part in (v[1] or ""):
+            return v[3]
+        for a in v[2]:
+            r = _call_block(du, a, name_part, depth + 1)
+            if r is not None:
+                return r
+    if v[0] in ("unop", "cast"):
+        return _call_block(du, v[2], name_part, depth + 1)
+    return None
+
+
 def run(ctx):
     F, G, R = ctx.F, ctx.G, ctx.R
     chk = Check("C14", ctx.tier, "Request-line validation dominates the Ok return; method/version lists are exhaustive; header lines are split at the first separator by all sibling readers using the serialiser's constant; lookup is case-insensitive; a non-UTF-8 head is an error.")
@@ -33,10 +54,12 @@ def run(ctx):
 
     # ---- R1 request-line validation
     r1 = chk.rule("R1-request-line-validated", "the Ok return of the request-line parser is dominated by: two split_once(..).is_none()==false edges, method-list membership true, version-list membership true", floor=4)
+    from ..inline import is_private_helper
     rl = None
-    for fn in F.rws_fns():
-        if fn.kind == "Promoted":
+    for fn0 in F.rws_fns():
+        if fn0.kind == "Promoted" or is_private_helper(F, fn0.def_):
             continue
+        fn = ctx.inl(fn0)     # the membership tests may live in private helpers (is_supported_method ..)
         cs = {callee_name(t) for _, t in fn.calls()}
         if "request::Request::method_list" in cs and "http::HTTP::version_list" in cs:
             rl = fn
@@ -51,10 +74,11 @@ def run(ctx):
             tests = tests_dominating(rl, ob)
             need = {
                 "target present (first split_once is Some)": lambda c, tr, v: c.endswith("::is_none") and tr is False and deep_mentions(du, v, "split_once"),
-                "known method": lambda c, tr, v: c.endswith("::contains") and tr is True and deep_mentions(du, v, "method_list"),
-                "known version": lambda c, tr, v: c.endswith("::contains") and tr is True and deep_mentions(du, v, "version_list"),
+                "known method": lambda c, tr, v: (c.endswith("::contains") or c.endswith("::any")) and tr is True and deep_mentions(du, v, "method_list"),
+                "known version": lambda c, tr, v: (c.endswith("::contains") or c.endswith("::any")) and tr is True and deep_mentions(du, v, "version_list"),
             }
-            nsplit = len([1 for c, tr, v, _ in tests if c.endswith("::is_none") and tr is False and deep_mentions(du, v, "split_once")])
+            # distinct split_once calls whose Some-ness dominates the Ok return
+            nsplit = len({_call_block(du, v, "split_once") for c, tr, v, _ in tests if c.endswith("::is_none") and tr is False and deep_mentions(du, v, "split_once")})
             for label, pred in need.items():
                 ok = any(pred(c, tr, v) for c, tr, v, _ in tests)
                 r1.instance({"fn": rl.def_, "requirement": label, "dominates_ok_return": ok}, ok)
@@ -64,6 +88,18 @@ def run(ctx):
             r1.instance({"fn": rl.def_, "requirement": "both separators present (two split_once tests)", "count": nsplit}, ok)
             if not ok:
                 r1.violate("C14|R1|%s|two-splits" % rl.def_, "%s accepts a request line with fewer than three space-separated parts (only %d split_once test(s) dominate Ok)" % (rl.def_, nsplit), rl.file, rl.span["line"], rl.def_)
+        # membership through iter().any(closure): the closure is a plain equality
+        for bid, t in rl.calls():
+            if (callee_name(t) or "").endswith("::any"):
+                for cn in t.get("fn_items", []):
+                    cf = F.fns.get(cn)
+                    if cf is None or cf.kind != "Closure":
+                        continue
+                    badc = [callee_name(ct) for _, ct in cf.calls() if not re.search(r"PartialEq|::deref|::as_str|::to_string|::clone|::borrow|::as_ref", callee_name(ct) or "")]
+                    okc = not badc and any("PartialEq" in (callee_name(ct) or "") for _, ct in cf.calls())
+                    r1.instance({"fn": rl.def_, "membership_closure": cn, "plain_equality": okc}, okc)
+                    if not okc:
+                        r1.violate("C14|R1|%s|membership-closure" % rl.def_, "%s tests list membership with a closure that is not a plain equality (%s)" % (rl.def_, badc), cf.file, cf.span["line"], rl.def_)
         # the line is split with split_once on a single space, not on arbitrary whitespace
         bad = [callee_name(t) for _, t in rl.calls() if re.search(r"impl str>::(split_whitespace|split_ascii_whitespace|splitn|split)$", callee_name(t) or "")]
         r1.instance({"fn": rl.def_, "tokeniser": "split_once(' ')", "other_tokenisers": bad}, ok=not bad)
@@ -118,15 +154,12 @@ def run(ctx):
         if fn is None:
             r2.violate("C14|R2|anchor-missing|%s" % sname, "serialiser %s not found" % sname)
             continue
-        du = du_of(fn)
-        cfg = cfg_of(fn)
-        seq = []
-        for bid in cfg.rpo():
-            t = cfg.blocks[bid]["term"]
-            if t["k"] == "call" and callee_name(t) == "std::string::String::push_str":
-                seq.append(_push_desc(du, du.val_operand(t["args"][1])))
+        from .c05 import emission_sequences
+        fn = ctx.inl(fn)        # the header loop may be a private helper (append_header_lines)
+        seqs = emission_sequences(ctx, fn)
         pat = ["field:name", "const:" + (sep or "?"), "field:value", "const:\r\n"]
-        ok = any(seq[i:i + 4] == pat for i in range(len(seq)))
+        ok = any(q[i:i + 4] == pat for q in seqs for i in range(len(q)))
+        seq = max(seqs, key=len) if seqs else []
         r2.instance({"serialiser": sname, "writes": "name, %r, value, CRLF" % sep, "found": ok}, ok)
         if not ok:
             r2.violate("C14|R2|%s|writer" % sname, "%s does not append each header as name, %r, value, CRLF (pushes: %s): reader and writer disagree, or a header-less message gets a different framing" % (sname, sep, seq[:10]), fn.file, fn.span["line"], sname)
@@ -136,16 +169,18 @@ def run(ctx):
     for gname in ("request::Request::get_header",):
         gfn = F.fns.get(gname)
         closures = [F.fns[e.dst] for e in G.out.get(gname, []) if e.dst in F.fns and F.fns[e.dst].kind == "Closure"]
-        if gfn is None or not closures:
-            r3.violate("C14|R3|anchor-missing|%s" % gname, "%s or its lookup closure not found" % gname)
+        if gfn is None:
+            r3.violate("C14|R3|anchor-missing|%s" % gname, "%s not found" % gname)
             continue
-        for cf in closures:
-            nlow = len([1 for _, t in cf.calls() if (callee_name(t) or "").endswith("impl str>::to_lowercase") or (callee_name(t) or "").endswith("impl str>::to_uppercase") or (callee_name(t) or "").endswith("eq_ignore_ascii_case")])
-            eq = any("PartialEq" in (callee_name(t) or "") or (callee_name(t) or "").endswith("eq_ignore_ascii_case") for _, t in cf.calls())
-            ok = eq and (nlow >= 2 or any((callee_name(t) or "").endswith("eq_ignore_ascii_case") for _, t in cf.calls()))
-            r3.instance({"closure": cf.def_, "case_folding_calls": nlow, "equality": eq}, ok)
-            if not ok:
-                r3.violate("C14|R3|%s" % gname, "%s compares header names without folding the case of both sides" % cf.def_, cf.file, cf.span["line"], cf.def_)
+        # the comparison sits in a `find` closure or in an explicit loop of the function itself (a hoisted `name.to_lowercase()` counts)
+        all_calls = [t for _, t in ctx.inl(gfn).calls()] + [t for cf in closures for _, t in cf.calls()]
+        folds = [callee_name(t) or "" for t in all_calls if re.search(r"impl str>::(to_lowercase|to_uppercase|to_ascii_lowercase|to_ascii_uppercase)$|eq_ignore_ascii_case$", callee_name(t) or "")]
+        nlow = len(folds)
+        eq = any("PartialEq" in (callee_name(t) or "") or (callee_name(t) or "").endswith("eq_ignore_ascii_case") for t in all_calls)
+        ok = eq and (nlow >= 2 or any(x.endswith("eq_ignore_ascii_case") for x in folds))
+        r3.instance({"lookup": gname, "closures": [c.def_ for c in closures], "case_folding_calls": nlow, "equality": eq}, ok)
+        if not ok:
+            r3.violate("C14|R3|%s" % gname, "%s compares header names without folding the case of both sides" % gname, gfn.file, gfn.span["line"], gname)
 
     # ---- R4 non-UTF-8 head is an error
     r4 = chk.rule("R4-non-utf8-head-is-error", "in the line reader the from_utf8(..).is_err() edge leads to an Err return", floor=1)
@@ -153,6 +188,7 @@ def run(ctx):
     if cr is None:
         r4.violate("C14|R4|anchor-missing", "Request::cursor_read not found")
     else:
+        cr = ctx.inl(cr)      # the line reader may be a private helper (read_head_line)
         cfg = cfg_of(cr)
         du = du_of(cr)
         g = guards_of(cr)
@@ -162,11 +198,14 @@ def run(ctx):
                 root, inv = optres_root(du, place_key(t["dest"]))
                 err_edges = [e for e, f in g.facts() if f[0] == "variant" and f[1] == root and f[3] is (True if inv else False)]
                 for e in err_edges:
-                    region = cfg.reachable_from(e[1])
-                    errs = [b for b in region if cfg.edge_dominates(e, b) and any(s["k"] == "assign" and s["place"]["l"] == 0 and s["rv"]["k"] == "aggregate" and s["rv"].get("variant") == "Err" for s in cfg.blocks[b]["stmts"])]
-                    # from the Err assignment a return is reached without another assignment to the return place
-                    other_assign = [b for b in cfg.live_blocks() if b not in errs and any(s["k"] == "assign" and s["place"]["l"] == 0 for s in cfg.blocks[b]["stmts"])]
-                    ok = bool(errs) and all(any(r_ in cfg.reachable_from(b, removed_nodes=other_assign) for r_ in cfg.return_blocks()) for b in errs)
+                    # on the paths that are feasible after the Err edge (a helper's `Err(..)` return is matched / `?`-ed by the caller)
+                    # the function returns, and never through a block that builds `Ok(..)` as its result
+                    from .. import loops as L
+                    region = L.feasible_reach(cfg, e)
+                    if region is None:
+                        region = cfg.reachable_from(e[1])
+                    builds_ok = [b for b in region if any(s["k"] == "assign" and s["place"]["l"] == 0 and not s["place"]["p"] and s["rv"]["k"] == "aggregate" and s["rv"].get("variant") == "Ok" for s in cfg.blocks[b]["stmts"])]
+                    ok = not builds_ok and any(r_ in region for r_ in cfg.return_blocks())
                     found = True
                     r4.instance({"fn": cr.def_, "from_utf8_line": t["span"]["line"], "err_edge_returns_Err": ok}, ok)
                     if not ok:
